@@ -103,6 +103,10 @@ func handleLRange(params internal.HandlerFuncParams) ([]byte, error) {
 	if start < 0 {
 		start = len(list) + start
 	}
+	// A start before the head of the list is clamped to the head
+	if start < 0 {
+		start = 0
+	}
 
 	end, err := strconv.Atoi(params.Command[3])
 	if err != nil {
@@ -110,14 +114,14 @@ func handleLRange(params internal.HandlerFuncParams) ([]byte, error) {
 	}
 	// If end is < 0, calculate it from the end of the list
 	if end < 0 {
-		end = len(list) - end
+		end = len(list) + end
 	}
-	// If end is greater than list length, set it to the last element of the list
-	if end > len(list) {
+	// If end is past the last element, set it to the last element of the list
+	if end >= len(list) {
 		end = len(list) - 1
 	}
 
-	if start > end || start > len(list) {
+	if start > end || start >= len(list) {
 		return []byte("*0\r\n"), nil
 	}
 
@@ -198,6 +202,10 @@ func handleLTrim(params internal.HandlerFuncParams) ([]byte, error) {
 	if start < 0 {
 		start = len(list) + start
 	}
+	// A start before the head of the list is clamped to the head
+	if start < 0 {
+		start = 0
+	}
 	if end < 0 {
 		end = len(list) + end
 	}
@@ -260,6 +268,8 @@ func handleLRem(params internal.HandlerFuncParams) ([]byte, error) {
 			if list[i] == value {
 				list = append(list[:i], list[i+1:]...)
 				absoluteCount += 1
+				// The next element has moved into position i: examine it too.
+				i--
 			}
 		}
 	case count > 0:
@@ -271,6 +281,8 @@ func handleLRem(params internal.HandlerFuncParams) ([]byte, error) {
 			if list[i] == value {
 				list = append(list[:i], list[i+1:]...)
 				absoluteCount -= 1
+				// The next element has moved into position i: examine it too.
+				i--
 			}
 		}
 	case count < 0:
@@ -322,30 +334,34 @@ func handleLMove(params internal.HandlerFuncParams) ([]byte, error) {
 		return nil, errors.New("both source and destination must be lists")
 	}
 
-	switch whereFrom {
-	case "left":
-		err = params.SetValues(params.Context, map[string]interface{}{
-			source: append([]string{}, sourceList[1:]...),
-			destination: func() []string {
-				if whereTo == "left" {
-					return append(sourceList[0:1], destinationList...)
-				}
-				// whereTo == "right"
-				return append(destinationList, sourceList[0])
-			}(),
-		})
-	case "right":
-		err = params.SetValues(params.Context, map[string]interface{}{
-			source: append([]string{}, sourceList[:len(sourceList)-1]...),
-			destination: func() []string {
-				if whereTo == "left" {
-					return append(sourceList[len(sourceList)-1:], destinationList...)
-				}
-				// whereTo == "right"
-				return append(destinationList, sourceList[len(sourceList)-1])
-			}(),
-		})
+	if len(sourceList) == 0 {
+		return nil, errors.New("source list is empty")
 	}
+
+	// Take the element out of the source list.
+	var element string
+	var remainder []string
+	if whereFrom == "left" {
+		element, remainder = sourceList[0], append([]string{}, sourceList[1:]...)
+	} else {
+		element, remainder = sourceList[len(sourceList)-1], append([]string{}, sourceList[:len(sourceList)-1]...)
+	}
+
+	// When moving within one list, the element is put back into what remains of that list.
+	if source == destination {
+		destinationList = remainder
+	}
+
+	// Put the element into the destination list.
+	var updated []string
+	if whereTo == "left" {
+		updated = append([]string{element}, destinationList...)
+	} else {
+		updated = append(append([]string{}, destinationList...), element)
+	}
+
+	// When source and destination are the same key, the second entry replaces the first.
+	err = params.SetValues(params.Context, map[string]interface{}{source: remainder, destination: updated})
 
 	if err != nil {
 		return nil, err
